@@ -98,8 +98,8 @@ CHECKS = {
     "C02": dict(
         level="translation_validation", design="4/C02",
         technique="translation validation: Lean 4 kernel-checked equivalence checker (check_sound) on the real decompiler's output (parsed text vs input; recompiled text vs input), per input",
-        text="For every generated well-formed routine set (checked by the Lean machine: every path ends, no Jump-only cycle) the real decompiler's text is parsed with the repo's parser, given meaning by the Lean source semantics and validated against the input on the Lean SSB machine by the proven checker; the text is also compiled with the real compiler and validated machine-vs-machine; routine tables are compared. The front phases of the decompiler ARE modelled and proved for all inputs (lean/ESV/Decomp, ESV.DecompFront.resolve_preserves: the label resolver's output behaves like the input routine set; baseGraph_preserves: the base control-flow graph of SsbGraphMinimizer.__init__ is the control flow of the routine; optimizePaths_preserves and buildBranches_preserves: the first two rewriting passes preserve the behaviour of the graph, the latter for every answer of the heuristic join search that satisfies a decidable predicate evaluated on the real answers; groupBranches_preserves / invertBranches_stepB for the next two passes over the flag-based reading stepB; buildSwitchCases_preserves / groupSwitchCases_preserves for the switch passes over stepS; buildLoops_preserves / removeLabelMarkers_preserves for the last passes over stepL; front_through_graph_phase_preserve composes all eleven graph passes: the graph that is handed to the text writers behaves like the resolver's item list, for every answer of the heuristic searches that satisfies decidable predicates evaluated on the recorded real answers) and tied to the running code exactly on every generated routine set (labels, interleaved routines, vertex and edge lists with flow levels and loop flags, exception classes; igraph's incident-edge order re-measured); the real intermediate graphs are also validated per input by the proven checker. For the heuristic rewriting passes behind them (the text writers; the decisions of the heuristic searches enter the model as recorded oracle inputs) no forall-inputs statement is claimed. Input classes on which the pinned decompiler is wrong are known findings identified by a shape predicate of the input.",
-        note=TV_NOTE + "Of the decompiler, label resolution, base graph construction, optimize_paths, build_branches (join search as recorded oracle), group_branches, invert_branches, build_and_group_switch_cases, group_switch_cases, build_switch_fallthroughs, build_loops and remove_label_markers are modelled (all 11 graph passes; heuristic searches as recorded oracles); the heuristic graph rewriting behind them and the writers are not. String parameters are kept inside C04's guard. A dungeon-mode number 0..3 may come back as its constant."),
+        text="For every generated well-formed routine set (checked by the Lean machine: every path ends, no Jump-only cycle) the real decompiler's text is parsed with the repo's parser, given meaning by the Lean source semantics and validated against the input on the Lean SSB machine by the proven checker; the text is also compiled with the real compiler and validated machine-vs-machine; routine tables are compared. The front phases of the decompiler ARE modelled and proved for all inputs (lean/ESV/Decomp, ESV.DecompFront.resolve_preserves: the label resolver's output behaves like the input routine set; baseGraph_preserves: the base control-flow graph of SsbGraphMinimizer.__init__ is the control flow of the routine; optimizePaths_preserves and buildBranches_preserves: the first two rewriting passes preserve the behaviour of the graph, the latter for every answer of the heuristic join search that satisfies a decidable predicate evaluated on the real answers; groupBranches_preserves / invertBranches_stepB for the next two passes over the flag-based reading stepB; buildSwitchCases_preserves / groupSwitchCases_preserves for the switch passes over stepS; buildLoops_preserves / removeLabelMarkers_preserves for the last passes over stepL; front_through_graph_phase_preserve composes all eleven graph passes: the graph that is handed to the text writers behaves like the resolver's item list, for every answer of the heuristic searches that satisfies decidable predicates evaluated on the recorded real answers) and tied to the running code exactly on every generated routine set (labels, interleaved routines, vertex and edge lists with flow levels and loop flags, exception classes; igraph's incident-edge order re-measured); the real intermediate graphs are also validated per input by the proven checker. The text writers are modelled at the level of the statement tree they print (lean/ESV/Decomp/Writer*.lean), tied exactly (model program = lowered parse of the real text, exception class = exception class, on every generated routine set) and proved to preserve behaviour for the label-free and join fragments (writeRoutine_straightline / _labelfree / _joins: about half of the real routines); for switches, loops and jump statements in the writers, and for the decisions of the heuristic searches (recorded oracle inputs), no forall-inputs statement is claimed - those are validated per input. Input classes on which the pinned decompiler is wrong are known findings identified by a shape predicate of the input.",
+        note=TV_NOTE + "Of the decompiler, label resolution, base graph construction, optimize_paths, build_branches (join search as recorded oracle), group_branches, invert_branches, build_and_group_switch_cases, group_switch_cases, build_switch_fallthroughs, build_loops and remove_label_markers and the text writers (statement-tree level) are modelled - the whole of convert(); heuristic searches as recorded oracles; the heuristic graph rewriting behind them and the writers are not. String parameters are kept inside C04's guard. A dungeon-mode number 0..3 may come back as its constant."),
     "C06": dict(
         level="other", design="4/C06",
         technique="Lean 4 proofs of every part of convert() that can raise past its try: label resolution never raises on well-formed routine sets (ESV.DecompFront.resolve_total, model tied exactly to the running code) and the fallback path is total and exact (ESV.C07.decompile_ok, ssbscript_roundtrip); the shape of convert() (what runs before the try, `except Exception`, handler = SsbScript decompiler) is read from the current source and compared with the pinned reading; termination and the structured path are explored on generated well-formed routine sets with op-for-op comparison of every fallback through the real compiler",
